@@ -27,7 +27,7 @@ def compose_cases(rng, n):
 
 
 def gen(rng, tier):
-    return bc.gen_with(rng, tier, 4, 4, 2) + compose_cases(rng, 300 if tier == "quick" else 5000) + bc.periodic_cases(rng, 300 if tier == "quick" else 4000)
+    return bc.gen_with(rng, tier, 4, 4, 2) + compose_cases(rng, 300 if tier == "quick" else 2000) + bc.periodic_cases(rng, 300 if tier == "quick" else 2500)
 
 
 LEVEL_TEXT = ("Theorems in coq/Properties_C02.v about the acceptor LTS of the batch processors: a ForceFlush that returns true implies every record queued "
